@@ -51,9 +51,16 @@ func genRefCase(r *rng, id string) *ValCase {
 	// plain pointer targets
 	for i := 0; i < 1+r.intn(2); i++ {
 		t, m := target()
-		name := pick(r, []string{"t", "a/b", "m~n", "x y", "é", "%25", ""}) + fmt.Sprint(i)
+		name := pick(r, []string{"t", "a/b", "m~n", "x y", "é", "%25", "", "a+b", "c++", "a b"}) + fmt.Sprint(i)
 		defs = append(defs, DMem{name, t})
 		targets = append(targets, refTarget{m, []string{"#/$defs/" + pointerEscape(name)}})
+	}
+	if r.chance(1, 5) {
+		for _, nm := range []string{"p+q", "p q"} {
+			t, m := target()
+			defs = append(defs, DMem{nm, t})
+			targets = append(targets, refTarget{m, []string{"#/$defs/" + pointerEscape(nm)}})
+		}
 	}
 	// anchors in the root resource
 	if r.chance(2, 3) {
